@@ -56,6 +56,14 @@ class _Canon(ast.NodeTransformer):
             node.keywords = [k for k in node.keywords if k.arg != "dtype"]
         return node
 
+    def visit_Compare(self, node):
+        self.generic_visit(node)
+        # b > a  ->  a < b ;  b >= a  ->  a <= b   (one normal form per ordering test)
+        if len(node.ops) == 1 and isinstance(node.ops[0], (ast.Gt, ast.GtE)):
+            op = ast.Lt() if isinstance(node.ops[0], ast.Gt) else ast.LtE()
+            return ast.Compare(left=node.comparators[0], ops=[op], comparators=[node.left])
+        return node
+
     def visit_BinOp(self, node):
         self.generic_visit(node)
         # (-a) / b, (-a) * b, a * (-b)  ->  -(a op b)
@@ -81,6 +89,11 @@ def canon_node(expr, rename=None, inline=None):
 
 def canon(expr, rename=None, inline=None) -> str:
     return ast.unparse(canon_node(expr, rename, inline))
+
+
+def cexpr(text: str, rename=None) -> str:
+    """Canonical text of an expression given as source (for expectations written the way the repository writes them)."""
+    return canon(ast.parse(text, mode="eval").body, rename=rename)
 
 
 def linform(expr, rename=None, inline=None):
